@@ -258,6 +258,7 @@ func zzC13ReaderDuring(writer int) {
 	}
 	zzProcAlive()
 	zzProcBegin(false) // the reader (list / show take no lock)
+	zzReaderInstants() // its stat of the log path may be older than its open
 	g1, err1 := loadGraph(dir)
 	zzAssert(err1 == nil, "C13/reader: a read concurrent with a writer succeeds")
 	if err1 != nil {
